@@ -485,7 +485,12 @@ func inputKeyedComposableRunnable(key string, r *composableRunnable) *composable
 	wrapper.i = func(ctx context.Context, input any, opts ...any) (output any, err error) {
 		v, ok := input.(map[string]any)[key]
 		if !ok {
-			return nil, fmt.Errorf("cannot find input key: %s", key)
+			if getCheckPointFromCtx(ctx) == nil {
+				return nil, fmt.Errorf("cannot find input key: %s", key)
+			}
+			// The node is a nested graph that continues from its nested checkpoint: the input of the
+			// restored task is only a placeholder (the zero value) which the nested run ignores.
+			v = r.inputZeroValue()
 		}
 		out, err := i(ctx, v, opts...)
 		if err != nil {
